@@ -74,7 +74,13 @@ func (s *Session) BuildRuntime(vet bool) {
 	var dirs []string
 	for i, r := range s.Reqs {
 		g := s.Gens[i]
-		files, ok := s.PackageFiles(g, true, true)
+		serverOnly := false
+		for _, t := range r.Tags {
+			if t == "server-only" {
+				serverOnly = true
+			}
+		}
+		files, ok := s.PackageFiles(g, true, !serverOnly)
 		if !ok {
 			continue
 		}
@@ -105,7 +111,7 @@ func (s *Session) BuildRuntime(vet bool) {
 				hasSvc = true
 			}
 		}
-		files[filepath.Join(dir, "zz_verif_shim.go")] = ShimSource(r, gp, hasSvc, hasSvc, hasMock)
+		files[filepath.Join(dir, "zz_verif_shim.go")] = ShimSource(r, gp, hasSvc, hasSvc && !serverOnly, hasMock)
 		if err := w.WritePackage(files); err != nil {
 			s.Run.Fatal("%v", err)
 		}
